@@ -4,7 +4,7 @@
    [demux_unit] / [parse_pat_packet] / [parse_pmt_packet] are the reference
    ISO/IEC 13818-1 demultiplexer of Mpegts/TsDemux.v. *)
 From Lal Require Import Common.LBytes Mpegts.TsPack Mpegts.TsPsi Mpegts.TsDemux
-  Mpegts.TsPackProofs Mpegts.TsPsiProofs.
+  Mpegts.TsPackProofs Mpegts.TsPsiProofs Mpegts.TsStreamProofs.
 Open Scope N_scope.
 
 (* Every frame with at least one byte, any length, key or not, PTS = DTS or
@@ -49,6 +49,25 @@ Theorem c09_cc_seq : forall (fs : list frame) (cc : N), cc < 256 ->
   /\ snd (pack_seq cc fs) = (cc + N.of_nat (length (concat (fst (pack_seq cc fs))))) mod 256.
 Proof. exact pack_seq_cc. Qed.
 Print Assumptions c09_cc_seq.
+
+(* stream level: the packets of ANY sequence of frames (the counter carried
+   from frame to frame) form a stream that the reference demultiplexer, which
+   does not know the frame boundaries, splits again at
+   payload_unit_start_indicator, finds continuous counters over, and decodes to
+   exactly one unit per frame, in order: [expected_units cc fs] is
+   [expected_unit] (the record of the first theorem) of every frame with the
+   counter it inherits *)
+Theorem c09_stream_lossless : forall (fs : list frame) (cc : N), cc < 256 ->
+  Forall (fun f => f_pts f < 18446744073709551616 /\ f_dts f < 18446744073709551616 /\
+                   f_pid f < 8192 /\ f_sid f < 256 /\ sid_without_header (f_sid f) = false /\
+                   bytes_ok (f_raw f) /\ f_raw f <> []) fs ->
+  demux_stream (concat (fst (pack_seq cc fs))) = Some (expected_units cc fs)
+  /\ length (expected_units cc fs) = length fs.
+Proof.
+  intros fs cc Hcc Hall. split; [exact (pack_seq_stream_lossless fs cc Hcc Hall)|].
+  clear. revert cc. induction fs as [|f t IH]; intro cc; [reflexivity|]. cbn [expected_units length]. now rewrite IH.
+Qed.
+Print Assumptions c09_stream_lossless.
 
 (* PAT and PMT: 188 bytes, one complete current section whose CRC-32 (annex A,
    bit by bit) verifies, 0xFF stuffing; the PAT maps program 1 to PID 0x1001;
